@@ -141,6 +141,9 @@ struct CtxState {
     freed: bool,
     /// (order id, payload handle index not tracked) pending orders seen and not yet answered
     unanswered: Vec<u64>,
+    /// payload handles of every order this context ever reported ("owned by context": the host
+    /// never frees them, and may look at them for as long as the context lives)
+    payloads: Vec<*mut TsRunValue>,
     promises: Vec<(usize, bool, u64)>, // handle index of host promise, settled, order id
     /// what the script must see for answered orders: order id -> model
     expected_answers: Vec<(u64, Value)>,
@@ -457,6 +460,9 @@ impl<'a> Exec<'a> {
                     for i in 0..res.pending_count {
                         let o = &*res.pending_orders.add(i);
                         self.ctxs[c].unanswered.push(o.id);
+                        if !o.payload.is_null() && self.ctxs[c].payloads.len() < 32 {
+                            self.ctxs[c].payloads.push(o.payload);
+                        }
                         self.trace.push_str(&format!("order{};", o.id));
                         self.rep.bump("orders_reported", 1);
                     }
@@ -535,6 +541,7 @@ impl<'a> Exec<'a> {
                             ptr: p,
                             freed: false,
                             unanswered: vec![],
+                            payloads: vec![],
                             promises: vec![],
                             expected_answers: vec![],
                             last_error: ptr::null(),
@@ -1025,6 +1032,21 @@ impl<'a> Exec<'a> {
                 Op::GcStats(c) => {
                     if let Some(c) = self.live_ctx(*c) {
                         self.recheck_error(c);
+                        // look at an order payload the context handed out earlier (answered or not)
+                        if !self.ctxs[c].payloads.is_empty() {
+                            let pl = self.ctxs[c].payloads[self.hs.len() % self.ctxs[c].payloads.len()];
+                            let ctx = self.ctxs[c].ptr;
+                            let shown = show_handle(ctx, pl);
+                            let ok = shown.starts_with("{\"k\":") && shown.ends_with('}') && shown[5..shown.len() - 1].chars().all(|ch| ch.is_ascii_digit());
+                            if !ok {
+                                self.fail("order_payload_kept_by_the_host_changed", shown.chars().take(120).collect(), json!({"payload_now": shown}));
+                            }
+                            let d = tsrun_value_dup(ctx, pl);
+                            if !d.is_null() {
+                                tsrun_value_free(d);
+                            }
+                            self.rep.bump("kept_order_payloads_inspected", 1);
+                        }
                         let s = tsrun_gc_stats(self.ctxs[c].ptr);
                         if s.live_objects + s.pooled_objects != s.total_objects {
                             self.fail("gc_stats_inconsistent", format!("{} {} {}", s.live_objects, s.pooled_objects, s.total_objects), json!({}));
@@ -1186,14 +1208,23 @@ impl<'a> Exec<'a> {
                         }
                         let spec = self.c("host:episode");
                         let m = tsrun_internal_module_new(spec);
+                        // export names are built in ONE scratch buffer that is overwritten for every
+                        // add_* call (the header does not ask for names to outlive the call)
+                        let mut scratch = [0u8; 24];
+                        let mut name_in_scratch = |name: &str, scratch: &mut [u8; 24]| -> *const c_char {
+                            scratch.fill(0);
+                            scratch[..name.len().min(23)].copy_from_slice(&name.as_bytes()[..name.len().min(23)]);
+                            scratch.as_ptr() as *const c_char
+                        };
                         let cfg = tsrun_json_parse(ctx, self.c("{\"port\":8080,\"tags\":[{\"t\":1},{\"t\":2}],\"name\":\"cfg\"}"));
-                        tsrun_internal_module_add_value(m, self.c("config"), cfg.value); // ownership moves to the module
+                        tsrun_internal_module_add_value(m, name_in_scratch("config", &mut scratch), cfg.value); // ownership moves to the module
                         for i in 0..(*n as usize % 6) {
-                            tsrun_internal_module_add_function(m, self.c(&format!("f{}", i)), native_cb, 1, 3usize as *mut c_void);
+                            tsrun_internal_module_add_function(m, name_in_scratch(&format!("f{}", i), &mut scratch), native_cb, 1, 3usize as *mut c_void);
                         }
                         let extra = tsrun_json_parse(ctx, self.c("[{\"e\":[1,2,{\"deep\":true}]},\"x\"]"));
-                        tsrun_internal_module_add_value(m, self.c("extra"), extra.value);
-                        tsrun_internal_module_add_function(m, self.c("last"), native_cb, 1, 3usize as *mut c_void);
+                        tsrun_internal_module_add_value(m, name_in_scratch("extra", &mut scratch), extra.value);
+                        tsrun_internal_module_add_function(m, name_in_scratch("last", &mut scratch), native_cb, 1, 3usize as *mut c_void);
+                        name_in_scratch("scratch-is-reused", &mut scratch);
                         let r = tsrun_register_internal_module(ctx, m);
                         if !r.ok {
                             self.fail("episode_register_failed", "tsrun_register_internal_module".into(), json!({}));
@@ -1538,7 +1569,7 @@ pub fn generate_history(rng: &mut Rng) -> Scn {
     let n = if rng.chance(0.6) { rng.range(5, 40) } else { rng.range(40, 200) } as usize;
     let mut ops = vec![Op::NewCtx];
     let w: [u32; 39] = [
-        1, 1, 8, 6, 5, 5, 4, 5, 4, 8, 6, 6, 8, 2, 2, 5, 3, 2, 4, 5, 4, 7, 3, 3, 5, 5, 4, 1, 2, 1, 2, 3, 9, 4, 5, 4, 2, 2, 2,
+        1, 1, 8, 6, 5, 5, 4, 5, 4, 8, 6, 6, 8, 2, 2, 5, 3, 2, 4, 5, 4, 7, 3, 3, 5, 5, 4, 4, 2, 1, 2, 3, 9, 4, 5, 4, 2, 2, 2,
     ];
     for _ in 0..n {
         let a = (rng.next_u64() & 0xff) as u8;
